@@ -94,7 +94,8 @@ def run(ctx, prop):
     nser = sum(1 for e in hist if e["op"] == "serialize")
     if nser < 20:
         raise vlib.ToolError("vacuous: only %d serialize events in the recorded histories" % nser)
-    for i in hrep[0]["bad"]:
+    # structure failures belong to C01 and C02; "structurally fine but not the canonical image" to C02 only
+    for i in sorted(set(hrep[0]["bad"]) | (set(hrep[0]["noncanon"]) if prop == "C02" else set())):
         ev = hist[i - 1]
         if ev["op"] == "serialize":
             ctx.violation({"dir": "impl->spec", "what": "serialize after a history", "res_ok": ev["res"].get("ok"),
